@@ -814,14 +814,8 @@ func TestVerifC04Source(t *testing.T) {
 	seen := map[string]bool{}
 	modes := map[string]int{"strict": defs.StrictTypeEnforcement, "relaxed": defs.RelaxedTypeEnforcement}
 
-	for i := 0; i < n+len(corpus); i++ {
-		var src string
-		if i < len(corpus) {
-			src = corpus[i]
-		} else {
-			src = c04sProgram(r)
-		}
-
+	// runOne: the direct oracle on one program. class is the failure class of a two-mode difference.
+	runOne := func(src, class string, sample bool) {
 		stats.Inc("programs")
 
 		accepted := false
@@ -855,7 +849,7 @@ func TestVerifC04Source(t *testing.T) {
 			}
 
 			if re != nil || ro != so {
-				fails.Write(verifh.Failure{Class: c04sClass(src),
+				fails.Write(verifh.Failure{Class: class,
 					What:  "a program that strict type checking runs to completion prints something else (or fails) under relaxed type checking",
 					Input: fmt.Sprintf("opt=%d src=%q", opt, src), Got: "relaxed: " + got, Want: "strict: " + so})
 			}
@@ -868,11 +862,36 @@ func TestVerifC04Source(t *testing.T) {
 				seen[src] = true
 				stats.Inc("distinct_nontrivial")
 
-				if i >= len(corpus) {
+				if sample {
 					stats.Sample(map[string]string{"src": src})
 				}
 			}
 		}
+	}
+
+	for i := 0; i < n+len(corpus); i++ {
+		if i < len(corpus) {
+			runOne(corpus[i], c04sClass(corpus[i]), false)
+		} else {
+			src := c04sProgram(r)
+			runOne(src, c04sClass(src), true)
+		}
+	}
+
+	// the aliasing stream (zz_verif_c04alias_test.go): containers sent through typed boundaries, written through
+	// one name and read through the other
+	ra := verifh.Rand(49)
+	aliases := c04aCorpus(ra)
+
+	for i := 0; i < verifh.N(120, 2500); i++ {
+		aliases = append(aliases, c04aProgram(ra))
+	}
+
+	for i, src := range aliases {
+		before := stats.M["strict_accepted_programs"]
+		runOne(src, "two-mode-diff:alias", i%40 == 0)
+		stats.Inc("alias_programs")
+		stats.Add("alias_strict_accepted", stats.M["strict_accepted_programs"]-before)
 	}
 
 	// (B) statement-language programs against the Lean `exec`
